@@ -51,19 +51,22 @@ CHECKS = {
     },
     "C07": {
         "batches": [
-            {"engine": "dkgsim", "mode": "", "runs": {"quick": 40000, "thorough": 700000}, "budget": {"quick": 75, "thorough": 1500}},
+            {"engine": "dkgsim", "mode": "", "runs": {"quick": 32000, "thorough": 700000}, "budget": {"quick": 75, "thorough": 1500}},
+            {"engine": "dkgsim", "mode": "adv", "runs": {"quick": 12000, "thorough": 300000}, "budget": {"quick": 45, "thorough": 1200}},
             {"engine": "dkgsim", "mode": "big", "runs": {"quick": 0, "thorough": 160}, "budget": {"quick": 0, "thorough": 1500}, "det": False},
         ],
-        "rule": PROTO_RULE, "time_unit": "protocol rounds (3 per run), timer events and message deliveries",
+        "rule": PROTO_RULE + "; mode adv = adversarial templates (the single dealer is Byzantine, every Byzantine participant misbehaves systematically per message kind, its vector is mostly held back and sent last in the round); mode big = Joint-Feldman with n in 16..32",
+        "time_unit": "protocol rounds (3 per run), timer events and message deliveries",
         "real": DKG_REAL, "stub": DKG_STUB, "assumptions": DKG_ASSUME,
         "expected_probes": ["dkg_succeeded", "dkg_failed", "jf_failed", "honest_complaint", "threshold_signature_checked", "groupkey_recomputed_from_vectors", "exactly_t_complaints", "t_plus_1_complaints", "vector_late", "vector_malformed_first"],
     },
     "C08": {
         "batches": [
-            {"engine": "dkgsim", "mode": "", "runs": {"quick": 40000, "thorough": 700000}, "budget": {"quick": 60, "thorough": 1500}},
+            {"engine": "dkgsim", "mode": "", "runs": {"quick": 32000, "thorough": 700000}, "budget": {"quick": 60, "thorough": 1500}},
+            {"engine": "dkgsim", "mode": "adv", "runs": {"quick": 12000, "thorough": 300000}, "budget": {"quick": 45, "thorough": 1200}},
             {"engine": "dkgsim", "mode": "fvss", "runs": {"quick": 20000, "thorough": 300000}, "budget": {"quick": 30, "thorough": 900}},
         ],
-        "rule": PROTO_RULE + "; mode fvss = plain Feldman VSS worlds only (every order of vector and share deliveries, every malformation kind)",
+        "rule": PROTO_RULE + "; mode adv = adversarial templates (the single dealer is Byzantine, every Byzantine participant misbehaves systematically per message kind, its vector is mostly held back and sent last in the round); mode fvss = plain Feldman VSS worlds only (every order of vector and share deliveries, every malformation kind)",
         "time_unit": "protocol rounds (3 per run), timer events and message deliveries",
         "real": DKG_REAL, "stub": DKG_STUB,
         "assumptions": DKG_ASSUME + ["must-disqualify expectations are derived from the mutator's labels (which polynomial a vector/share/answer belongs to), never by recomputing curve points"],
